@@ -125,6 +125,11 @@ def main(argv):
         ml = model_run(py_lines)
         for a, out, m in zip(calls, res["calls"], ml):
             c.count(("api",) + tuple(a), True)
+            # two faults at once (unknown algorithm AND empty password / wrong key size): which refusal comes first is not
+            # fixed by the property - both are refusals
+            two_faults = a[1] not in (1, 2) and ((a[0] == "master" and not a[2]) or (a[0] == "localized" and len(a[2]) // 2 not in (16, 20)))
+            if two_faults and out in ("EXC ValueError", "EXC SnmpDecodeError") and m in ("EXC ValueError", "EXC SnmpDecodeError"):
+                continue
             if out != m:
                 dis += 1
                 c.log("model/impl disagree on %s: model %s impl %s" % (a, m, out))
